@@ -584,6 +584,79 @@ pub fn run_box_case(bytes: &[u8]) -> (Vec<String>, bool, Vec<u32>) {
                 if got != want {
                     cx.v("Box<dyn Iterator> yields different items".into());
                 }
+                // consuming methods over iterators whose size_hint is exact, loose (filter, chars) or plainly wrong, boxed as
+                // a sized value and as a trait object: the box must answer what the iterator itself answers
+                let kind = g(22) % 5;
+                let (lo, hi) = crate::vec_eng::hint_for(g(23), n);
+                let text: String = vals.iter().map(|x| ['a', 'é', '€', '😀'][(*x % 4) as usize]).collect();
+                let mk = || -> Box<dyn Iterator<Item = u32>> {
+                    match kind {
+                        0 => Box::new(vals.clone().into_iter()),
+                        1 => Box::new(vals.clone().into_iter().filter(|x| x % 3 != 0)),
+                        2 => Box::new(crate::vec_eng::Hinted { it: vals.clone().into_iter(), lo, hi }),
+                        3 => Box::new(text.clone().chars().map(|c| c as u32).collect::<Vec<_>>().into_iter().take_while(|x| *x != 0x20AC)),
+                        _ => Box::new(vals.clone().into_iter().chain(vals.clone().into_iter().skip_while(|x| x % 2 == 0))),
+                    }
+                };
+                for fin in 0..6u8 {
+                    let boxed_sized = {
+                        let _g = enter_arena(1);
+                        BBox::new_in(mk(), b)
+                    };
+                    let boxed_dyn: BBox<dyn Iterator<Item = u32>> = {
+                        let _g = enter_arena(1);
+                        unsafe { BBox::from_raw(BBox::into_raw(BBox::new_in(mk(), b)) as *mut dyn Iterator<Item = u32>) }
+                    };
+                    let k = (g(24) % 4) as usize;
+                    let run = |it: &mut dyn Iterator<Item = u32>| -> String {
+                        match fin {
+                            0 => format!("last {:?}", it.last()),
+                            1 => format!("count {}", it.count()),
+                            2 => format!("sum {}", it.fold(0u64, |a, x| a + x as u64)),
+                            3 => format!("nth({k}) {:?} then {:?}", it.nth(k), it.next()),
+                            4 => format!("max {:?}", it.max()),
+                            _ => format!("hint {:?}", it.size_hint()),
+                        }
+                    };
+                    let want = {
+                        let mut plain = mk();
+                        match fin {
+                            0 => format!("last {:?}", plain.last()),
+                            1 => format!("count {}", plain.count()),
+                            2 => format!("sum {}", plain.fold(0u64, |a, x| a + x as u64)),
+                            3 => format!("nth({k}) {:?} then {:?}", plain.nth(k), plain.next()),
+                            4 => format!("max {:?}", plain.max()),
+                            _ => format!("hint {:?}", plain.size_hint()),
+                        }
+                    };
+                    // through the Box's own Iterator impl (method call on the box, not on its contents)
+                    let got_sized = {
+                        let mut bx = boxed_sized;
+                        match fin {
+                            0 => format!("last {:?}", bx.last()),
+                            1 => format!("count {}", bx.count()),
+                            2 => format!("sum {}", bx.fold(0u64, |a, x| a + x as u64)),
+                            3 => format!("nth({k}) {:?} then {:?}", bx.nth(k), bx.next()),
+                            4 => format!("max {:?}", bx.max()),
+                            _ => format!("hint {:?}", bx.size_hint()),
+                        }
+                    };
+                    let got_dyn = {
+                        let mut bx = boxed_dyn;
+                        match fin {
+                            0 => format!("last {:?}", bx.last()),
+                            1 => format!("count {}", bx.count()),
+                            2 => format!("sum {}", bx.fold(0u64, |a, x| a + x as u64)),
+                            3 => format!("nth({k}) {:?} then {:?}", bx.nth(k), bx.next()),
+                            4 => format!("max {:?}", bx.max()),
+                            _ => format!("hint {:?}", bx.size_hint()),
+                        }
+                    };
+                    let _ = &run;
+                    if got_sized != want || got_dyn != want {
+                        cx.v(format!("boxed iterator (kind {kind}): Box<I> gives [{got_sized}], Box<dyn Iterator> gives [{got_dyn}], the iterator itself gives [{want}]"));
+                    }
+                }
             }
             8 => {
                 let val = g(1) as u32;
